@@ -73,7 +73,7 @@ add("C15", "c15", q, t, twins=True)
 q, t = rapid_jobs(tshards=16, tscale=200)
 t["jobs"].append(fuzz_job("FuzzUnpad", 150))
 for _tier in (q, t):
-    _tier["jobs"].append(dict(name="firstops", mode="plain", run="^TestFirstOps$", shards=1, timeout=300))
+    _tier["jobs"].append(dict(name="firstops", mode="plain", run="^(TestFirstOps|TestPadSweep)$", shards=1, timeout=300))
 add("C08", "c08", q, t, twins=True)
 
 # ---- C09 secret-based encryption ----------------------------------------------
